@@ -338,3 +338,22 @@ Proof.
   - rewrite beq_refl. reflexivity.
   - destruct (beq k k0) eqn:E; cbn [pool_get]; rewrite E; [reflexivity|exact IH].
 Qed.
+
+(* ---- C10: gap detection at logon ---- *)
+
+Definition gap_request (first_missing : Z) : message :=
+  mk_msg msgtype_ResendRequest
+    (set_kv tag_EndSeqNo (VInt true 0) (set_kv tag_BeginSeqNo (VInt true first_missing) tpl_ResendRequest)).
+
+Theorem gap_detection cfg s inc :
+  process_inc_seq cfg s inc =
+  (if Z.ltb (s_cnt_in s + 1) inc
+   then let '(s1, o) := session_send cfg s (gap_request (s_cnt_in s + 1)) in (upd_cnt_in s1 inc, o)
+   else (upd_cnt_in s inc, [])).
+Proof. unfold process_inc_seq, gap_request. destruct (Z.ltb _ _); reflexivity. Qed.
+
+Lemma gap_request_fields n :
+  get_kv tag_BeginSeqNo (m_body (gap_request n)) = Some (VInt true n)
+  /\ get_kv tag_EndSeqNo (m_body (gap_request n)) = Some (VInt true 0%Z)
+  /\ mt_of (gap_request n) = msgtype_ResendRequest.
+Proof. repeat split. Qed.
